@@ -37,7 +37,7 @@ namespace OP2Utility
 		// Map Width in Tiles.
 		uint32_t WidthInTiles() const
 		{
-			return  1 << lgWidthInTiles; // Use bitwise left shift to translate base 2 logarithm.
+			return uint32_t(1) << lgWidthInTiles; // Use bitwise left shift to translate base 2 logarithm.
 		}
 
 		bool VersionTagValid() const
